@@ -78,7 +78,21 @@ func (x *DotLookup) Visit(v func(Expression)) {
 }
 
 func (x *DotLookup) String() string {
+	// two integer lookups in a row need to be kept apart or they read as a decimal, i.e. foo.1 .2 rather than foo.1.2
+	if inner, ok := x.Container.(*DotLookup); ok && isInteger(x.Lookup) && isInteger(inner.Lookup) {
+		return fmt.Sprintf("%s .%s", x.Container.String(), x.Lookup)
+	}
+
 	return fmt.Sprintf("%s.%s", x.Container.String(), x.Lookup)
+}
+
+func isInteger(s string) bool {
+	for _, c := range s {
+		if c < '0' || c > '9' {
+			return false
+		}
+	}
+	return s != ""
 }
 
 type ArrayLookup struct {
